@@ -204,7 +204,7 @@ def construct(case):
         raise LookupError(case["cls"])
     fam = case["fam"]
     if fam == "_StandardCommand":
-        return cls(build_dest(address, case["dest"]), *[unraw(x) for x in case.get("params", [])])
+        return cls(build_dest(address, case["dest"]), *[unraw(x) for x in case.get("params", [])], **case.get("extra_kw", {}))
     if fam == "DAPC":
         return cls(build_dest(address, case["dest"]), unraw(case["power"]))
     if fam == "_SpecialCommand":
@@ -281,9 +281,10 @@ def run_case(case):
         try:
             obj = construct(case)
         except Exception as e:  # noqa - any exception raised by the library is a rejection
-            if library_frame(e.__traceback__) is None:
+            if library_frame(e.__traceback__) is None and not (
+                    isinstance(e, TypeError) and str(case.get("illegal", "")).startswith(("surplus", "parameter-missing"))):
                 raise   # raised by the harness itself: a harness bug, not a rejection
-            return []
+            return []      # (a TypeError for a wrong number of arguments is raised at the call itself)
         try:
             fr = "%#x" % obj.frame.as_integer
         except Exception:  # noqa
@@ -585,6 +586,16 @@ def illegal_cases(path, fam, cls):
         for kind_, top_ in (("gshort", 63), ("ggroup", 15)):
             for tag, x in bad_ints(top_):
                 yield dict(legal, dest=["renum", kind_, 5, x], illegal="destination:%s-renumbered-%s" % (kind_, tag))
+        if fam == "_StandardCommand":
+            # surplus arguments: a second positional one for a command without parameter, a third for one with,
+            # unknown keywords
+            n_ok = 1 if cls._hasparam else 0
+            for extra in (0, 1, 3, 15, 0x90, None):
+                yield dict(legal, params=[3] * n_ok + [extra], illegal="surplus-positional:%r" % (extra,))
+            for kwname in ("param", "address", "devicetype", "power"):
+                yield dict(legal, extra_kw={kwname: 3}, illegal="surplus-keyword:" + kwname)
+            if cls._hasparam:
+                yield dict(legal, params=[], illegal="parameter-missing")
         if fam == "DAPC":
             for tag, v in list(bad_ints(255)) + [("none", None), ("float", 1.5), ("str", "5"), ("other-str", "ON")] + \
                     [(t, ["num", k, 100]) for t, k in LOOKALIKES]:
